@@ -124,7 +124,9 @@ static inline void readline_push_current_line_to_history(struct readline *rl)
 
 static inline void readline_load_history_line(struct readline *rl)
 {
-    rl->lastsize = rl->line.len;
+    // distance from the start of the line to the cursor: what the terminal
+    // has to move left by before it redraws the line
+    rl->lastsize = rl->line.cursor;
 
     if (rl->curhist == 0)
     {
